@@ -45,6 +45,7 @@ func main() {
 
 	w := bufio.NewWriterSize(os.Stdout, 1<<16)
 	defer w.Flush()
+	defer proto.RunCleanups() // scratch directories a property's Exec made below os.TempDir()
 	run := func(in []string) {
 		out := safeExec(p, in)
 		fmt.Fprintf(w, "%s %s => %s\n", id, strings.Join(in, " "), strings.Join(out, " "))
